@@ -117,9 +117,9 @@ _PAY = b"\x00\x14" + b"\x42" * 20
 MAX_MONEY = 2_100_000_000_000_000
 
 
-@ob("C18", "build_psbt_conserves_value_and_pays_the_rate", quick=[dict(nin=1, nout=1, change=1), dict(nin=2, nout=1, change=1), dict(nin=1, nout=1, change=0), dict(nin=1, nout=2, change=1)],
+@ob("C18", "build_psbt_conserves_value_and_pays_the_rate", quick=[dict(nin=1, nout=1, change=1), dict(nin=2, nout=1, change=1), dict(nin=1, nout=1, change=0), dict(nin=1, nout=2, change=1), dict(nin=1, nout=252, change=1)],
     thorough=[dict(nin=i, nout=o, change=c) for i in (1, 2, 3) for o in (0, 1, 2) for c in (0, 1) if (o or c) and i + o <= 3],
-    bound="P2WPKH / P2TR key-path inputs (1..3) whose utxo values are symbolic over 0..2^51, 0..2 payments with symbolic values, fee rate symbolic in 0..10^7 sat/kvB, with and without a change script: "
+    bound="P2WPKH / P2TR key-path inputs (1..3) whose utxo values are symbolic over 0..2^51, 0..2 payments with symbolic values (and one instance with 252 payments, of which the first symbolic, so that the change output takes the output count across the 252/253 CompactSize boundary), fee rate symbolic in 0..10^7 sat/kvB, with and without a change script: "
           "an answer conserves value, pays at least ceil(rate x estimated vsize of the psbt returned), never holds a change output below the dust threshold, "
           "and a refusal happens only for amounts outside the money range or inputs that do not cover outputs plus fee",
     stubs=["rate x vsize products are taken by the fee obligation above; here vsize is concrete (it depends on the script types only)"],
@@ -127,7 +127,8 @@ MAX_MONEY = 2_100_000_000_000_000
     outside=["other script types, a caller-supplied sizer, more than 3 inputs; that the estimate bounds the signed size (psbt_size tables)"], min_ok=1, timeout=900, query_timeout_ms=300000)
 def build_psbt_accounting(ex, nin, nout, change):
     vals = [ex.int(f"in{i}", 0, 1 << 51) for i in range(nin)]
-    pays = [ex.int(f"pay{j}", 0, 1 << 51) for j in range(nout)]
+    # beyond three payments only the first is symbolic (the 252-payment instance sits on the CompactSize boundary of the output count)
+    pays = [ex.int(f"pay{j}", 0, 1 << 51) if (j < 3 and nout <= 3) or j == 0 else 600 + j for j in range(nout)]
     rate = ex.int("rate", 0, 10_000_000)
     inputs = []
     for i, v in enumerate(vals):
